@@ -85,7 +85,7 @@ CHECKS = {
           "deadlock); a paused state reaches every live worker; a finishing Resume leaves every live worker running with no stale "
           "signal; unmatched calls return at once. Negations proved for the shapes of the pinned tree (D4, D5). Facts: channel "
           "capacities, CAS directions, flag test + mutex in Resume, the acknowledgement shape in each of the four stage workers. "
-          "All call orders up to 5 (thorough 7) x 0..3 workers plus random histories run against the real package with real goroutines.",
+          "All call orders up to 5 (thorough 7) x 0..3 workers plus random histories run against the real package with real goroutines. Workers may subscribe at any moment (model action `subscribe`, defect D27 repaired); busy workers, late subscribers and the four real stage pools in whole pause / resume crawls are exercised against the model and an oracle written from the property text.",
   "note": COMMON_NOTE + "Modelled not verified: Go channel/sync.Map/atomic semantics; subscribers register before the first pause; "
           "flag test and Range snapshot of Resume are one atomic step; the harness's subscriber goroutines copy the pause case of the "
           "stage workers (shape read from the source), the real workers run in C03's end-to-end scenarios. Termination of internal "
